@@ -20,7 +20,27 @@ from vlib.realcode import load
 from vlib.framework import BUnit, Violation
 
 os.environ.setdefault("TQDM_DISABLE", "1")
-_ONE_THREAD = ("OMP_NUM_THREADS", "OPENBLAS_NUM_THREADS", "MKL_NUM_THREADS")   # 16 workers x 16 BLAS threads = 20x slower
+
+
+def _one_blas_thread():
+    """pool initializer.  16 workers x 16 OpenBLAS threads each make the tiny L-BFGS problems of the template generator
+    ~20x slower (measured 0.9 s vs 0.04 s per world); the thread count of the already loaded libraries is set to 1
+    (what threadpoolctl would do; it is not installed).  Harness hygiene only: results do not depend on it."""
+    import ctypes
+    load("polyply.src.gen_coords")
+    try:
+        libs = {l.split()[-1] for l in open("/proc/self/maps") if "openblas" in l and l.rstrip().endswith(".so")}
+    except OSError:
+        return
+    for path in libs:
+        try:
+            lib = ctypes.CDLL(path)
+        except OSError:
+            continue
+        for sym in ("scipy_openblas_set_num_threads", "scipy_openblas_set_num_threads64_", "openblas_set_num_threads", "openblas_set_num_threads64_"):
+            if hasattr(lib, sym):
+                getattr(lib, sym)(1)
+
 
 AMU = 1.6605410          # from the statement of C03 (amu/nm^3 -> kg/m^3)
 EPS = 1e-6
@@ -381,7 +401,7 @@ def cli_kwargs(d, **over):
     return kw
 
 
-def run_gen_coords(d, kw, seed, schedule=(), timeout=25.0):
+def run_gen_coords(d, kw, seed, schedule=(), timeout=90.0):
     """one call of the real gen_coords; returns (status, probe, detail). status: ok | unfinished | error"""
     gc = load("polyply.src.gen_coords")
     from vermouth.file_writer import DeferredFileWriter
@@ -398,6 +418,7 @@ def run_gen_coords(d, kw, seed, schedule=(), timeout=25.0):
         return "unfinished", probe, f"{type(e).__name__}: {e}"
     except Exception as e:      # noqa: BLE001
         tb = traceback.extract_tb(e.__traceback__)
+        tb = [f for f in tb if os.path.basename(f.filename) != "b_coords.py"]
         where = "; ".join(f"{os.path.basename(f.filename)}:{f.lineno} {f.name}" for f in tb[-3:])
         return "error", probe, f"{type(e).__name__}: {str(e)[:200]} @ {where}"
     finally:
@@ -833,18 +854,8 @@ def cli_line(w):
 
 def run_worlds(unit_name, worlds, res):
     import multiprocessing as mp
-    saved = {k: os.environ.get(k) for k in _ONE_THREAD}
-    os.environ.update({k: "1" for k in _ONE_THREAD})
-    try:
-        # fresh interpreters: the BLAS thread count is read when numpy is loaded
-        with mp.get_context("spawn").Pool(min(16, os.cpu_count() or 1)) as pool:
-            out = pool.map(eval_world, worlds, chunksize=4)
-    finally:
-        for k, v in saved.items():
-            if v is None:
-                os.environ.pop(k, None)
-            else:
-                os.environ[k] = v
+    with mp.Pool(min(16, os.cpu_count() or 1), initializer=_one_blas_thread) as pool:
+        out = pool.map(eval_world, worlds, chunksize=4)
     unfinished = 0
     by_key = {}
     seen = set()
@@ -869,7 +880,7 @@ def run_worlds(unit_name, worlds, res):
         res.violations.append(Violation(unit_name, f"{what}  [{len(lst)} world(s) with this failure; smallest: {cli_line(w)}]",
                                         inputs=describe(w), detail=detail or what, replayed=True, finding_key=key))
     res.bound = (res.bound or "") + f"  | NOT EVALUATED (no placement found / time limit): {unfinished} of {len(worlds)} worlds"
-    res.assumptions.append(f"{unfinished} of {len(worlds)} worlds not evaluated: gen_coords found no placement within -mi attempts or 25 s (not counted, not a violation)")
+    res.assumptions.append(f"{unfinished} of {len(worlds)} worlds not evaluated: gen_coords found no placement within -mi attempts (deterministic) or 90 s wall (safety net) (not counted, not a violation)")
     res.assumptions.append("gro reader/writer of vermouth trusted to the extent that the written file is parsed by an independent fixed-column reader")
     return unfinished, by_key
 
